@@ -1,6 +1,8 @@
 package main
 
 import (
+	"strings"
+
 	"golang.org/x/tools/go/ssa"
 )
 
@@ -8,6 +10,12 @@ import (
 // phi edges, and for locals (Alloc) every value stored into them or their elements.
 // visit returns true to stop (found).
 func backwardSlice(v ssa.Value, visit func(ssa.Value) bool) bool {
+	return backwardSliceOpt(v, false, visit)
+}
+
+// backwardSliceOpt: with direct set, the slice does not continue through calls
+// (only copies, conversions, loads, slicing, phis and locals): "the value itself".
+func backwardSliceOpt(v ssa.Value, direct bool, visit func(ssa.Value) bool) bool {
 	seen := map[ssa.Value]bool{}
 	var rec func(v ssa.Value, depth int) bool
 	rec = func(v ssa.Value, depth int) bool {
@@ -19,10 +27,42 @@ func backwardSlice(v ssa.Value, visit func(ssa.Value) bool) bool {
 			return true
 		}
 		if a, ok := v.(*ssa.Alloc); ok {
-			return storedInto(a, func(x ssa.Value) bool { return rec(x, depth+1) })
+			if storedInto(a, func(x ssa.Value) bool { return rec(x, depth+1) }) {
+				return true
+			}
+			// copy(a[:], src) fills the local from src
+			return copiedInto(a, func(x ssa.Value) bool { return rec(x, depth+1) })
+		}
+		if mm, ok := v.(*ssa.MakeMap); ok {
+			if refs := mm.Referrers(); refs != nil {
+				for _, r := range *refs {
+					if mu, ok := r.(*ssa.MapUpdate); ok && mu.Map == mm {
+						if rec(mu.Key, depth+1) || rec(mu.Value, depth+1) {
+							return true
+						}
+					}
+				}
+			}
+			return false
+		}
+		if nx, ok := v.(*ssa.Next); ok {
+			if rg, ok := nx.Iter.(*ssa.Range); ok {
+				return rec(rg.X, depth+1)
+			}
 		}
 		in, ok := v.(ssa.Instruction)
 		if !ok {
+			return false
+		}
+		if call, isCall := v.(*ssa.Call); isCall && direct {
+			// library conversions (decompress, timestamp conversion ...) still carry the value;
+			// module calls compute derived values (hashes, lookups) and end the direct slice
+			cal := call.Call.StaticCallee()
+			if cal == nil || inModule(funcPkgPath(cal)) || strings.HasPrefix(cal.String(), "crypto/sha") {
+				return false
+			}
+		}
+		if _, isBin := v.(*ssa.BinOp); isBin && direct {
 			return false
 		}
 		for _, op := range in.Operands(nil) {
@@ -68,4 +108,28 @@ func dependsOnCall(v ssa.Value, pred func(*ssa.CallCommon) bool) bool {
 		c, ok := x.(*ssa.Call)
 		return ok && pred(&c.Call)
 	})
+}
+
+// copiedInto visits src of every builtin copy(dst, src) whose dst is a slice of local a.
+func copiedInto(a ssa.Value, visit func(ssa.Value) bool) bool {
+	refs := a.Referrers()
+	if refs == nil {
+		return false
+	}
+	for _, r := range *refs {
+		sl, ok := r.(*ssa.Slice)
+		if !ok || sl.Referrers() == nil {
+			continue
+		}
+		for _, r2 := range *sl.Referrers() {
+			if call, ok := r2.(*ssa.Call); ok {
+				if b, ok := call.Call.Value.(*ssa.Builtin); ok && b.Name() == "copy" && len(call.Call.Args) == 2 && call.Call.Args[0] == sl {
+					if visit(call.Call.Args[1]) {
+						return true
+					}
+				}
+			}
+		}
+	}
+	return false
 }
